@@ -23,7 +23,7 @@ pub fn node_of(v: &Value) -> Value {
             None => json!({"j": "float"}),
         },
         Value::String(s) => match IpAddr::from_str(s) {
-            Ok(ip) => json!({"j": "ip", "v": ip_octets(&ip)}),
+            Ok(ip) => json!({"j": "ip", "v": ip_octets(&ip), "txt": s.as_bytes()}),
             Err(_) => json!({"j": "str", "v": s.as_bytes()}),
         },
         Value::Array(a) => json!({"j": "arr", "v": a.iter().map(node_of).collect::<Vec<_>>()}),
@@ -45,10 +45,16 @@ pub fn text_of(n: &Value) -> String {
             let b: Vec<u8> = serde_json::from_value(n["v"].clone()).unwrap();
             serde_json::to_string(&String::from_utf8_lossy(&b).to_string()).unwrap()
         }
-        "ip" => {
-            let b: Vec<u8> = serde_json::from_value(n["v"].clone()).unwrap();
-            format!("\"{}\"", octets_ip(&b))
-        }
+        "ip" => match n.get("txt") {
+            Some(t) => {
+                let b: Vec<u8> = serde_json::from_value(t.clone()).unwrap();
+                serde_json::to_string(&String::from_utf8_lossy(&b).to_string()).unwrap()
+            }
+            None => {
+                let b: Vec<u8> = serde_json::from_value(n["v"].clone()).unwrap();
+                format!("\"{}\"", octets_ip(&b))
+            }
+        },
         "arr" => format!("[{}]", n["v"].as_array().unwrap().iter().map(text_of).collect::<Vec<_>>().join(",")),
         "obj" => format!(
             "{{{}}}",
@@ -383,8 +389,10 @@ pub fn gen_serde_events(r: &mut StdRng, specs: &[SchemeSpec], schemes: &[Scheme]
         _ => false,
     };
     let (fields, lists, has) = parsed.clone().unwrap_or((vec![], vec![], false));
+    let mut plain = fields.clone();
+    plain.iter_mut().for_each(drop_txt);
     out.push(json!({"ev": "ser", "id": id0, "sch": sid, "ctx": cs, "well_formed": parsed.is_some(),
-                    "same_value": same_value, "fields": fields, "haslists": has, "lists": lists, "text": text}));
+                    "same_value": same_value, "fields": plain, "haslists": has, "lists": lists, "text": text}));
     // round trip
     out.push(json!({"ev": "rt", "id": id0 + 1, "sch": sid, "ctx": cs, "ways": feed(scheme, spec, sid, &text)}));
     // mutated document
@@ -433,7 +441,8 @@ pub fn reobserve(specs: &[SchemeSpec], schemes: &[Scheme], e: &mut Value) {
                     (Ok(a), Ok(b)) => a == b,
                     _ => false,
                 };
-                let (fields, lists, has) = parsed.clone().unwrap_or((vec![], vec![], false));
+                let (mut fields, lists, has) = parsed.clone().unwrap_or((vec![], vec![], false));
+                fields.iter_mut().for_each(drop_txt);
                 e["well_formed"] = json!(parsed.is_some());
                 e["same_value"] = json!(same_value);
                 e["fields"] = json!(fields);
@@ -449,4 +458,153 @@ pub fn reobserve(specs: &[SchemeSpec], schemes: &[Scheme], e: &mut Value) {
             e["ways"] = feed(scheme, spec, sid, &text);
         }
     }
+}
+
+/// compare documents at the level of JSON text: an address node becomes the string node of its text
+/// (the recorded text if there is one, else the canonical rendering of the octets)
+fn strip_txt(n: &mut Value) {
+    match n {
+        Value::Object(o) => {
+            if o.get("j").map(|j| j == "ip").unwrap_or(false) {
+                let bytes: Vec<u8> = match o.get("txt") {
+                    Some(t) => serde_json::from_value(t.clone()).unwrap(),
+                    None => {
+                        let b: Vec<u8> = serde_json::from_value(o["v"].clone()).unwrap();
+                        octets_ip(&b).to_string().into_bytes()
+                    }
+                };
+                *n = json!({"j": "str", "v": bytes});
+                return;
+            }
+            for (_, x) in o.iter_mut() {
+                strip_txt(x);
+            }
+        }
+        Value::Array(a) => a.iter_mut().for_each(strip_txt),
+        _ => {}
+    }
+}
+
+/// address nodes without their text (the form the specification's encoder produces)
+fn drop_txt(n: &mut Value) {
+    match n {
+        Value::Object(o) => {
+            if o.get("j").map(|j| j == "ip").unwrap_or(false) {
+                o.remove("txt");
+            }
+            for (_, x) in o.iter_mut() {
+                drop_txt(x);
+            }
+        }
+        Value::Array(a) => a.iter_mut().for_each(drop_txt),
+        _ => {}
+    }
+}
+
+fn ty_of_desc(t: &Value) -> Ty {
+    let lay: Vec<u8> = serde_json::from_value(t["lay"].clone()).unwrap();
+    let mut ty = match t["prim"].as_str().unwrap() {
+        "Bool" => Ty::Bool,
+        "Int" => Ty::Int,
+        "Ip" => Ty::Ip,
+        _ => Ty::Bytes,
+    };
+    for l in lay.iter().rev() {
+        ty = if *l == 0 { Ty::Array { e: Box::new(ty) } } else { Ty::Map { e: Box::new(ty) } };
+    }
+    ty
+}
+
+const WAYS: [&str; 5] = ["str", "slice", "reader", "value", "ffi"];
+
+/// spec -> impl for C14: one vector of MC_C14 (a typed value document or a whole context document)
+pub fn replay_vector(v: &Value) -> (Value, Vec<String>) {
+    let mut diffs = Vec::new();
+    let is_val = v["ev"] == "val";
+    let spec: SchemeSpec = if is_val {
+        SchemeSpec { fields: vec![FieldSpec { name: "f".into(), ty: ty_of_desc(&v["ty"]), opt: false }], funcs: vec![], lists: vec![], listkinds: vec![], nne: false }
+    } else {
+        serde_json::from_value(v["scheme"].clone()).expect("scheme of a doc vector")
+    };
+    let scheme = build_scheme(&spec);
+    let text = if is_val {
+        format!("{{\"f\":{}}}", text_of(&v["node"]))
+    } else {
+        doc_text("obj", v["entries"].as_array().unwrap())
+    };
+    let ways = feed(&scheme, &spec, 1, &text);
+    for w in WAYS {
+        let g = &ways[w];
+        if g["out"] == "skipped" || (w == "value" && v["skipvalue"] == true) {
+            continue;
+        }
+        let (exp_ok, exp_vals, exp_lists) = if is_val && w == "value" {
+            (v["vok"] == true, json!([v["vv"]]), json!([]))
+        } else if is_val {
+            (v["ok"] == true, json!([v["v"]]), json!([]))
+        } else if w == "value" {
+            (v["vok"] == true, v["vctx"]["vals"].clone(), v["vctx"]["lists"].clone())
+        } else {
+            (v["ok"] == true, v["ctx"]["vals"].clone(), v["ctx"]["lists"].clone())
+        };
+        if g["out"] == "panic" {
+            diffs.push(format!("via {w}: the deserializer panicked"));
+            continue;
+        }
+        if (g["out"] == "ok") != exp_ok {
+            diffs.push(format!("via {w}: verdict expected ok={} observed {}", exp_ok, g["out"]));
+        }
+        if exp_ok && g["out"] == "ok" {
+            if g["ctx"]["vals"] != exp_vals {
+                diffs.push(format!("via {w}: stored values expected {} observed {}", exp_vals, g["ctx"]["vals"]));
+            }
+            if !is_val && g["ctx"]["lists"] != exp_lists {
+                diffs.push(format!("via {w}: list matchers expected {} observed {}", exp_lists, g["ctx"]["lists"]));
+            }
+        }
+        // whatever the verdict: nothing of another type than the field's is stored
+        let vals: Vec<Val> = serde_json::from_value(g["ctx"]["vals"].clone()).unwrap_or_default();
+        for (i, x) in vals.iter().enumerate() {
+            if !x.is_nil() && x.ty().as_ref() != Some(&spec.fields[i].ty) {
+                diffs.push(format!("via {w}: field {} holds a value of type {:?}", spec.fields[i].name, x.ty()));
+            }
+        }
+    }
+    // the encoder: serialize the decoded context and compare with the canonical encoding
+    let mut observed = json!({"ways": ways});
+    if v["ok"] == true {
+        let r = catch_unwind(AssertUnwindSafe(|| {
+            let mut ctx = ExecutionContext::<()>::new(&scheme);
+            let mut de = serde_json::Deserializer::from_str(&text);
+            let ok = (&mut ctx).deserialize(&mut de).is_ok();
+            (ok, serde_json::to_string(&ctx).unwrap_or_default())
+        }));
+        match r {
+            Err(_) => diffs.push("serializing the decoded context panicked".into()),
+            Ok((false, _)) => {}
+            Ok((true, out)) => match entries_of_text(&out, &spec) {
+                None => diffs.push(format!("serialized context is not a JSON object: {out}")),
+                Some((mut fields, lists, has)) => {
+                    fields.iter_mut().for_each(strip_txt);
+                    fields.sort_by(|a, b| a["name"].as_str().cmp(&b["name"].as_str()));
+                    let mut exp: Vec<Value> = if is_val { vec![json!({"name": "f", "v": v["enc"]})] } else { v["fields"].as_array().cloned().unwrap_or_default() };
+                    exp.sort_by(|a, b| a["name"].as_str().cmp(&b["name"].as_str()));
+                    exp.iter_mut().for_each(strip_txt);
+                    if json!(fields) != json!(exp) {
+                        diffs.push(format!("serialization: expected fields {} observed {}", json!(exp), json!(fields)));
+                    }
+                    if !is_val {
+                        if has != !spec.lists.is_empty() {
+                            diffs.push("serialization: $lists present iff the scheme has lists".into());
+                        }
+                        if json!(lists) != v["lists"] {
+                            diffs.push(format!("serialization: expected $lists {} observed {}", v["lists"], json!(lists)));
+                        }
+                    }
+                    observed["ser"] = json!(out);
+                }
+            },
+        }
+    }
+    (observed, diffs)
 }
